@@ -7,6 +7,7 @@ import (
 	"github.com/advancedclimatesystems/gonnx/onnx"
 	"google.golang.org/protobuf/proto"
 
+	"verifsim/evid"
 	"verifsim/val"
 )
 
@@ -89,6 +90,12 @@ func firstDivergence(a, b []nodeTrace) string {
 // stateChecks: also demand that caller tensors, weights and the protobuf are untouched (C02/C06);
 // for C17 only what each call returned is judged.
 func judge(c *Case, wr *worldRun, rc *refCache, stateChecks bool, attrib bool) []verdict {
+	if len(c.World.Env) > 0 {
+		// the references are computed in the environment the world ran in ("what a freshly loaded Model returns" - here
+		// and now), and are not shared with worlds that ran in another one
+		defer evid.ApplyEnv(c.World.Env)()
+		rc = &refCache{m: map[uint64]*refResult{}, pristine: rc.pristine}
+	}
 	var vs []verdict
 	infos := make([]*graphInfo, len(c.World.Models))
 	info := func(i int) *graphInfo {
